@@ -369,9 +369,58 @@ def rule_p4(repo):
     return res
 
 
+def rule_p5(repo):
+    """The while rule states the exit condition as invariant & neg(test).  neg must build the negation of
+    its argument: `Op("~", e)`, or - if it pushes the negation inwards - the *dual* connective over the negated
+    parts.  Keeping the connective (neg(p & q) = ~p & ~q) makes the hypothesis of the exit condition too strong,
+    and a false triple gets conditions that all hold."""
+    res = RuleResult('C20.P5', 'the negation used for the exit condition of a loop negates: the node `~e`, or the dual connective over negated parts', floor=1)
+    f = repo.func(EXPR, 'neg')
+    p = f.params()[0]
+    rets = [r for r in ast.walk(f.node) if isinstance(r, ast.Return) and r.value is not None]
+    need(rets, 'expr.neg: no return')
+    bad = []
+    for r in rets:
+        v = r.value
+        if isinstance(v, ast.Call) and call_name(v) == 'Op' and v.args and isinstance(v.args[0], ast.Constant) and v.args[0].value == '~' and \
+                len(v.args) == 2 and is_name(v.args[1], p):
+            continue
+        # distributed form: Op(<dual>, *(neg(a) for a in e.args)) - evaluate <dual> for e.op in {&, |}
+        if isinstance(v, ast.Call) and call_name(v) == 'Op' and v.args:
+            d = v.args[0]
+            defs = [n.value for n in ast.walk(f.node) if isinstance(n, ast.Assign) and isinstance(d, ast.Name) and is_name(n.targets[0], d.id)]
+            expr_d = defs[0] if defs else d
+
+            def ev(e, opval):
+                if isinstance(e, ast.Constant):
+                    return e.value
+                if isinstance(e, ast.IfExp):
+                    cp = compare_parts(e.test)
+                    if cp and cp[0] in (ast.Eq, ast.NotEq) and path_of(cp[1]) == p + '.op' and isinstance(cp[2], ast.Constant):
+                        t = (opval == cp[2].value) if cp[0] is ast.Eq else (opval != cp[2].value)
+                        return ev(e.body if t else e.orelse, opval)
+                if isinstance(e, ast.Subscript) and isinstance(e.value, ast.Dict) and path_of(e.slice) == p + '.op':
+                    for k, val in zip(e.value.keys, e.value.values):
+                        if isinstance(k, ast.Constant) and k.value == opval:
+                            return ev(val, opval)
+                return None
+            duals = {'&': '|', '|': '&'}
+            wrong = [o for o in duals if ev(expr_d, o) != duals[o]]
+            negated_parts = any(isinstance(c, ast.Call) and call_name(c) == 'neg' for c in ast.walk(v))
+            if not wrong and negated_parts:
+                continue
+            bad.append('line %d `%s`: %s' % (r.lineno, src(v, 50), 'for %s the connective of the result is %r, not %r' % (
+                wrong[0], ev(expr_d, wrong[0]), duals[wrong[0]]) if wrong else 'the parts are not negated'))
+            continue
+        bad.append('line %d returns `%s`' % (r.lineno, src(v, 50)))
+    res.add('%s :: neg :: negates' % EXPR, not bad, 'returns Op("~", e) (or the dual connective over negated parts)' if not bad else
+            '; '.join(bad) + ' -- the exit condition I & neg(b) --> Q of a loop with a compound test is weaker than it must be', f.loc)
+    return res
+
+
 def rules(repo):
     p1 = rule_p1(repo)
     if any(not i.ok for i in p1.instances):
         # with an ambiguous grammar there is no nesting for the printer's brackets to agree with
-        return [p1, rule_p3(repo), rule_p4(repo)]
-    return [p1, rule_p2(repo), rule_p3(repo), rule_p4(repo)]
+        return [p1, rule_p3(repo), rule_p4(repo), rule_p5(repo)]
+    return [p1, rule_p2(repo), rule_p3(repo), rule_p4(repo), rule_p5(repo)]
